@@ -219,8 +219,11 @@ func checkC02(r *Run) error {
 
 // C03: the wire format against the reference (encode direction + byte layout of the tokens).
 func checkC03(r *Run) error {
-	err := r.genVerify(nonMap, r.optsFor(false), []string{"MarshalBebopTo", "MarshalBebop"}, func(o *vc.Obligation) bool {
-		return o.Label == "ENC" || strings.HasPrefix(o.Class, "INV") || o.Class == "PRE" || o.Class == "COVER" || strings.HasPrefix(o.Class, "SAFE")
+	// Size() is part of the wire format of messages and unions (their length prefix is Size()-4, taken from the
+	// callee's contract at the call site): it is verified here as well (seeded change C03-e sat in Size() alone)
+	err := r.genVerify(nonMap, r.optsFor(false), []string{"MarshalBebopTo", "MarshalBebop", "Size"}, func(o *vc.Obligation) bool {
+		return o.Label == "ENC" || strings.HasPrefix(o.Class, "INV") || o.Class == "PRE" || o.Class == "COVER" || strings.HasPrefix(o.Class, "SAFE") ||
+			(o.Class == "POST" && strings.HasSuffix(o.Func, ".Size"))
 	})
 	if err != nil {
 		return err
